@@ -4930,6 +4930,8 @@ class PyCdlib:
             for child in parent.children:
                 if child.file_ident == name:
                     raise pycdlibexception.PyCdlibInvalidInput('Failed adding duplicate name to parent')
+                if new_rr_name and child.rock_ridge is not None and child.rock_ridge.name() == new_rr_name and not child.is_dot() and not child.is_dotdot():
+                    raise pycdlibexception.PyCdlibInvalidInput('Failed adding duplicate Rock Ridge name to parent')
 
             relocated = False
             fake_dir_rec = None
